@@ -46,26 +46,26 @@ func (l *evlog) snapshot() []string {
 // pipeConn is a net.Conn fed by the controller. Read delivers what was fed (at most len(p), at most the
 // current chunk); when nothing is available it reports "blocked" to the controller and waits.
 type pipeConn struct {
-	mu         sync.Mutex
-	cond       *sync.Cond
-	chunks     [][]byte
-	eof        bool // no more input will come: Read returns io.EOF once drained
-	reset      bool // Read returns an error (connection reset) once drained
-	closed     int  // number of Close calls
-	delivered  int
-	blocked    bool
-	wfail      bool // writes fail (client stopped reading / closed)
-	stall      bool // the client has stopped reading: writes are absorbed up to wcap bytes, then block
-	wcap       int  // bytes the (virtual) socket buffers still take while stalled
-	wdeadline  bool // a write deadline is set (SetWriteDeadline / SetDeadline with a non-zero time)
-	wblocked   bool // a Write is waiting for the client to read
-	closeFails bool // Close closes, and reports an error (tls.Conn.Close when the peer is gone)
-	rdeadline  bool // a read deadline is set
-	rtimedout  bool // the current wait for input already produced its timeout
-	log        *evlog
-	signal     chan struct{	eofWithData bool // the final Read returns its bytes together with io.EOF
-	readCap     int  // > 0: no Read returns more than this many bytes
-} // poked on: blocked, closed, write
+	mu          sync.Mutex
+	cond        *sync.Cond
+	chunks      [][]byte
+	eof         bool // no more input will come: Read returns io.EOF once drained
+	reset       bool // Read returns an error (connection reset) once drained
+	closed      int  // number of Close calls
+	delivered   int
+	blocked     bool
+	wfail       bool // writes fail (client stopped reading / closed)
+	stall       bool // the client has stopped reading: writes are absorbed up to wcap bytes, then block
+	wcap        int  // bytes the (virtual) socket buffers still take while stalled
+	wdeadline   bool // a write deadline is set (SetWriteDeadline / SetDeadline with a non-zero time)
+	wblocked    bool // a Write is waiting for the client to read
+	closeFails  bool // Close closes, and reports an error (tls.Conn.Close when the peer is gone)
+	rdeadline   bool // a read deadline is set
+	rtimedout   bool // the current wait for input already produced its timeout
+	log         *evlog
+	signal      chan struct{} // poked on: blocked, closed, write
+	eofWithData bool          // the final Read returns its bytes together with io.EOF
+	readCap     int           // > 0: no Read returns more than this many bytes
 }
 
 func newPipeConn(log *evlog) *pipeConn {
